@@ -416,6 +416,11 @@ class Consumer(object):
         """
         if self._start_d is None:
             raise RestopError("Stop called on non-running consumer")
+        if self._stopping:
+            # Re-entered from a callback fired by one of the cancellations
+            # below (e.g. a shutdown() waiting on the processor): the outer
+            # call finishes the job.
+            return self._last_processed_offset
 
         self._stopping = True
         # Keep track of state for debugging
